@@ -21,6 +21,7 @@ static void build_events(int for_conc) {
     EV[NEVT++] = ev_emit1(0, ST_M1, ST_M1, 7, 1, 0, ST_S0, ST_PEER);
     EV[NEVT++] = ev_reset(0, ST_M1);
     if (!for_conc) EV[NEVT++] = ev_reset(1, ST_M1);
+    if (!for_conc) EV[NEVT++] = ev_probe(0x04, 0, ST_S1, ST_S1, ST_SIB, ST_SIB);     /* a probe for the sibling interface's address, seen on this one (both on one segment) */
 }
 
 #ifndef VF_TSANABI
